@@ -573,6 +573,14 @@ func (handler *Handler) handleStatementExecute(ctx context.Context, packet *Pack
 				return 0, err
 			}
 		}
+	} else if statement != nil {
+		// no values to process, but the observers learn which statement it is whose result follows
+		if _, _, err := handler.queryObserverManager.OnBind(ctx, statement, nil); err != nil {
+			if filesystem.IsKeyReadError(err) {
+				return 0, err
+			}
+			log.WithError(err).Error("Failed to handle Bind packet")
+		}
 	}
 
 	return stmtID, nil
